@@ -2,4 +2,7 @@ SPEC_PART = dict(
     props_file="C18_theta",
     legs=[dict(family="theta", focus="size", oracles=["size_ok", "kmv_ok"], profiles=["debug"],
                mask=[1, 4, 7, 10, 11], n_quick=6, n_thorough=24)],
-    trusted=[], assumptions=[], covers="theta: TBD")
+    trusted=[], assumptions=[],
+    covers="theta: retained <= 15/16 * 2^(lg_k+1) after every operation of every history, = min(n, k) after trim; "
+           "|serialize()| = 8*preamble_longs + 8*retained <= 24 + 8*15/16*2^(lg_k+1). Tie: retained count and both image sizes "
+           "after every power-of-two prefix of streams up to 2^17 (quick) / 2^22 (thorough) items, distinct / repeated / descending")
